@@ -291,6 +291,48 @@ func Harness_C19_update() {
 }
 
 
+// Harness_C19_answersKept: the answers of successive requests are independent values: the
+// cosigned STH returned for a first (trust-on-first-use) update is still byte for byte what was
+// returned after a second, accepted update of the same log and after a get-sth request (a caller
+// -- the HTTP handler writing the body, a client keeping the witness's statements -- may hold it).
+//
+//verif:opt maxpaths=2000 reach=kept
+func Harness_C19_answersKept() {
+	sk := &c19Key{7}
+	logKey := &c19Key{1}
+	w := &Witness{db: &sql.DB{}, sk: sk, Logs: map[string]ct.SignatureVerifier{c19LogID: {PubKey: logKey}}}
+	c19Writes, c19SigCalls, c19SigSeen, c19SigKeys, c19ConsCalls, c19Signs = nil, 0, nil, nil, 0, 0
+	c19Tx, c19ReadInTx, c19WriteInTx = nil, false, false
+	c19Conc, c19DBFails, c19Row = false, false, nil
+	c19SigOK = []bool{true, true, true, true, true, true, true, true}
+	c19ConsOK = true
+	mk := func(size uint64, fill byte) []byte {
+		s := &ct.SignedTreeHead{Version: ct.V1, TreeSize: size, Timestamp: 1000 + size}
+		for i := range s.SHA256RootHash {
+			s.SHA256RootHash[i] = fill
+		}
+		for i := range s.LogID {
+			s.LogID[i] = byte(i)
+		}
+		return vJSONEncode(s)
+	}
+	first := uint64(5)
+	second := first + 1 + uint64(vChoice("growth", 2))
+	out1, err := w.Update(context.Background(), c19LogID, mk(first, 0xa1), nil)
+	vAssert(err == nil && len(out1) > 0, "the first STH of a log is stored and cosigned")
+	kept1 := append([]byte{}, out1...)
+	out2, err := w.Update(context.Background(), c19LogID, mk(second, 0xb2), [][]byte{make([]byte, 32)})
+	vAssert(err == nil && len(out2) > 0, "a consistent larger STH is stored and cosigned")
+	vAssert(bytes.Equal(out1, kept1), "the first answer is unchanged by the second update")
+	kept2 := append([]byte{}, out2...)
+	out3, err := w.GetSTH(c19LogID)
+	vAssert(err == nil && len(out3) > 0, "get-sth answers with the held STH, cosigned")
+	vAssert(bytes.Equal(out1, kept1) && bytes.Equal(out2, kept2), "earlier answers are unchanged by a later request")
+	var c1, c3 api.CosignedSTH
+	vAssert(vJSONDecode(out1, &c1) == nil && c1.TreeSize == first && vJSONDecode(out3, &c3) == nil && c3.TreeSize == second, "each answer carries the STH it was made for")
+	vReach("kept")
+}
+
 // Harness_C19_concurrent: two updates for the same log arrive concurrently while the witness
 // holds size 5 of branch A: each candidate is a validly signed head of size 8 or 9 on branch A or
 // on a fork B, with the proof a client would submit from size 5. Given serialisable database
